@@ -12,6 +12,24 @@ FORBIDDEN = re.compile(r"\b(sorry|admit|native_decide|bv_decide|implemented_by|u
 PY = "/venv/bin/python"
 
 
+SHARD = int(os.environ["VERIF_SHARD"]) if os.environ.get("VERIF_SHARD") else None     # set by ./check for the shards of a thorough run
+SHARDS = int(os.environ.get("VERIF_SHARDS", "1"))
+
+
+def count(tier, quick_n, thorough_n):
+    """number of generated cases for this process: the thorough tier is split over SHARDS processes with different seeds"""
+    if tier == "quick":
+        return quick_n
+    if SHARD is None:
+        return thorough_n
+    return max(1, -(-thorough_n // SHARDS))
+
+
+def exhaustive_here():
+    """finite enumerations (every day 1900-2200, every code point, every index) are done once: by shard 0"""
+    return SHARD in (None, 0)
+
+
 class OpTimeout(Exception):
     """an operation of the implementation did not return within its time limit"""
 
@@ -99,6 +117,8 @@ def build_and_audit(pid, log):
     that is a finding about the tree, reported by the caller; raises Infra when the tool chain is missing."""
     st = {"constants": "ok", "build": "ok", "driver": "ok", "obligations": [], "discharged": [], "axioms": {},
           "forbidden": [], "broken": []}
+    if SHARD is not None:       # the parent of a sharded thorough run has regenerated the constants, built and audited already
+        return json.loads(os.environ["VERIF_BUILD_STATUS"])
     with Lock():
         rc, out = run([PY, os.path.join(VERIF, "harness", "extract_constants.py")], timeout=120)
         log(out.strip())
@@ -175,6 +195,12 @@ def build_and_audit(pid, log):
 
 
 def leanchecker(pid, log):
+    if SHARD is not None:
+        return True
+    return _leanchecker(pid, log)
+
+
+def _leanchecker(pid, log):
     mods = sorted(m for m in lean_sources_of("Labella.Props." + pid))
     rc, out = run(["lake", "env", "leanchecker"] + mods, cwd=LEAN, timeout=3000)
     log("leanchecker rc=%d %s" % (rc, out[-300:]))
@@ -243,7 +269,7 @@ class Report:
         rd = os.path.join(VERIF, "replays")
         os.makedirs(rd, exist_ok=True)
         for fn in os.listdir(rd):      # replays of an earlier run of this check are stale (kept when this run IS a replay)
-            if fn.startswith(pid + "-") and "--replay" not in sys.argv:
+            if fn.startswith(pid + "-") and "--replay" not in sys.argv and SHARD is None:
                 os.unlink(os.path.join(rd, fn))
 
     def log(self, s):
@@ -310,7 +336,7 @@ class Report:
             "violations": len(violations),
         }
         os.makedirs(os.path.join(VERIF, "evidence"), exist_ok=True)
-        with open(os.path.join(VERIF, "evidence", self.pid + ".json"), "w") as fh:
+        with open(os.environ.get("VERIF_EVIDENCE_OUT") or os.path.join(VERIF, "evidence", self.pid + ".json"), "w") as fh:
             json.dump(ev, fh, indent=1, default=str)
         for path, what, nofound in violations[:3]:
             print("VIOLATION property=%s replay=%s%s" % (self.pid, path, " no-failing-input-found" if nofound else ""))
@@ -328,7 +354,7 @@ def rng_for(seed, salt):
 def add_impl_coverage(pid, cov):
     """append statement / branch coverage of /repo/labella (measured with coverage.py during this run, in-process part only) to the
     evidence file: shows how much of the code the correspondence actually drove"""
-    path = os.path.join(VERIF, "evidence", pid + ".json")
+    path = os.environ.get("VERIF_EVIDENCE_OUT") or os.path.join(VERIF, "evidence", pid + ".json")
     try:
         with open(path) as fh:
             ev = json.load(fh)
